@@ -189,6 +189,11 @@ func NewSim(ch *Chooser, stepCtr *atomic.Int64) *Sim {
 		MaxSteps: 120_000,
 		MaxEmits: 2500,
 	}
+	if v := os.Getenv("SIM_MAXSTEPS"); v != "" { // experiments only: is a livelock a long finite storm?
+		if n, err := strconv.ParseInt(v, 10, 64); err == nil {
+			s.MaxSteps = n
+		}
+	}
 	verifhook.H = s
 
 	return s
